@@ -11,7 +11,7 @@ FLOAT_KINDS = {'bbox'}      # float-mode companion (core.float_companion)
 FLOAT_TOL = 1e-12
 STATS = G.STATS
 PARTIAL = [
-    "length_curve: polyline >= chord and <= control polygon are checked by the oracle in floating point (sqrt); not a Lean theorem",
+    "length_curve: chord <= length <= control polygon ARE Lean theorems for every seminorm N (non-negative, sub-additive, positively homogeneous; the Euclidean norm over the reals is an instance, the l1 norm an instance over every ordered field), in exact arithmetic, for the model polylineLength / curveLength of operations.length_curve (sum structure tied by the 'lensum' stream) at the library's linspace sample parameters and at ANY increasing parameters; hypotheses: non-rational curve, degree >= 1, well-formed knot vector (CurveWF), clamped at the end for the upper bound / at both ends for the chord between the end control points, at least two samples for the chord bound (with sample_size 1 evalpts is the single start point and the length 0 is below the chord). NOT a theorem: that floating-point sqrt / float summation respects the inequalities (the oracle checks the float values with a relative slack of 1e-12, and the exact inequalities with the l1 and max norms); rational curves (the weighted polygon is not covered)",
     "hull / bounding box / clamped ends are assembled through the span search for every parameter of the closed domain (curvePoint / surfacePoint / volumePoint, rational and not); what is NOT a Lean theorem: that find_ctrlpts returns exactly the active control points, and the object layer's dispatch (evaluate_single -> evaluator -> these model functions), both tied by correspondence only; the clamped-end theorems need the first span non-empty (a start knot of multiplicity > p+1 moves the start point to a later control point)",
 ]
 
@@ -46,11 +46,34 @@ def gen(rng, tier):
         sizes = [rng.randint(2, 7) for _ in S.dirs(d)]
         dirs = [[F(rng.randint(-5, 5)) for _ in range(d['dim'])] for _ in range(4)]
         out.append(Case('sampled-hull', None, dict(shape=d, sizes=sizes, dirs=dirs)))
+    # length_curve = sum of point_distance over consecutive evalpts, in order, starting from 0.0: the
+    # distances (square roots: doubles, passed as exact rationals) and the evalpts are inputs of the
+    # model op, which re-evaluates the grid, looks each consecutive pair up and folds
+    for _ in range(25 if tier == 'quick' else 300):
+        d = S.rand_curve(rng, maxp=4, allow_range=False, clamped=rng.random() < .8)
+        n = rng.choice([2, 2, 3, 5, 8, 13, rng.randint(2, 24)])
+        delta = (d['kv'][d['n']] - d['kv'][d['p']]) / n
+        if delta >= 1 or delta <= 0:
+            continue
+        try:
+            from geomdl import linalg
+            o = S.build(d)
+            o.sample_size = n
+            ev = [list(pt) for pt in o.evalpts]
+            ds = [linalg.point_distance(a, b) for a, b in zip(ev, ev[1:])]
+            evs, dss = show_pts(ev), show_list(ds)
+        except Exception:
+            evs, dss = '-', '-'
+        out.append(Case('lensum', "clen %s %s %s %s" % (S.args(d), fr(delta), evs, dss), dict(shape=d, n=n)))
     return out
 
 
 def impl(c):
     o = S.build(c.data['shape'])
+    if c.kind == 'lensum':
+        from geomdl import operations
+        o.sample_size = c.data['n']
+        return fr(operations.length_curve(o))
     bb = o.bbox
     return "%s %s" % (show_list(bb[0]), show_list(bb[1]))
 
@@ -164,5 +187,29 @@ def oracle(c):
             return "length %r is less than the chord %r" % (ln, chord)
         if ln > poly * (1 + 1e-12) + 1e-12:
             return "length %r exceeds the control polygon length %r" % (ln, poly)
+        # the same two bounds in EXACT arithmetic for two norms that need no square root (l1, max):
+        # what the Lean theorems length_curve_ge_chord / length_curve_le_control_polygon state
+        ev = [[x.q if hasattr(x, 'q') else F(x) for x in pt] for pt in o.evalpts]
+        Pq = [[F(x) for x in pt] for pt in d['P']]
+        for name, nrm in (('l1', lambda v: sum(abs(x) for x in v)), ('max', lambda v: max(abs(x) for x in v))):
+            dist = lambda a, b: nrm([y - x for x, y in zip(a, b)])
+            ln_n = sum((dist(a, b) for a, b in zip(ev, ev[1:])), F(0))
+            poly_n = sum((dist(a, b) for a, b in zip(Pq, Pq[1:])), F(0))
+            if clamped and len(ev) >= 2 and ln_n < dist(Pq[0], Pq[-1]):
+                return "%s-length %s of the sampled polyline is less than the %s-chord %s" % (name, fr(ln_n), name, fr(dist(Pq[0], Pq[-1])))
+            if d['kv'][d['n']] == d['kv'][-1] and ln_n > poly_n:
+                return "%s-length %s of the sampled polyline exceeds the %s-length %s of the control polygon" % (name, fr(ln_n), name, fr(poly_n))
+        return None
+    if c.kind == 'lensum':
+        from geomdl import operations, linalg
+        o.sample_size = c.data['n']
+        ev = o.evalpts
+        tot = F(0)
+        for a, b in zip(ev, ev[1:]):
+            x = linalg.point_distance(a, b)
+            tot += x.q if hasattr(x, 'q') else F(x)
+        ln = operations.length_curve(o)
+        if (ln.q if hasattr(ln, 'q') else F(ln)) != tot:
+            return "length_curve %s is not the sum %s of the distances of consecutive evaluated points" % (fr(ln), fr(tot))
         return None
     return None
